@@ -21,6 +21,7 @@ import onnx_ir.external_data as _ed
 
 from iosim import fsseam, simthreading, tensors, workload
 from iosim.sched import HarnessError, SimAbort
+from simcore import knobs as _knobs
 from simcore.prng import Streams, digest
 
 logging.getLogger("onnx_ir").setLevel(logging.ERROR)
@@ -172,6 +173,7 @@ def gen_case(run_seed: int, tier: str, index: int = 0) -> dict:
     tensors.assign_layouts(specs, st.rng("layouts"))
     return {
         "property": PROPERTY,
+        "warnings_error": _knobs.warnings_knob(run_seed, 0.15),
         "run_seed": run_seed,
         "scenario": scenario,
         "tensors": specs,
@@ -629,6 +631,11 @@ def enumerate_plans(case: dict, dry: dict, rng, limit: int) -> tuple[list[dict],
 
 
 def run_case(case: dict) -> dict:
+    with _knobs.interpreter(case):
+        return _run_case(case)
+
+
+def _run_case(case: dict) -> dict:
     stats: dict = {}
     res = {"violation": None, "violations": [], "error": None, "stats": stats, "steps": 0, "distinct": [], "states": [], "case": case}
 
